@@ -10,7 +10,11 @@ from .sx import Sym, d_int, d_str, some
 RULE = ('three case kinds.  body: program trees over {return obj, raise <any of 22 classes incl. BaseException '
         'subclasses>, probe gauge, seq, try/except, wrapper as decorator (on generated functions of every parameter shape, '
         'methods, lambdas) or as with-block, true recursion to depth k, re-used Timer object} x the 3 wrappers on plain and '
-        'labelled Counter/Gauge/Summary/Histogram x scripted clocks (increasing, constant, decreasing, random, exhausted): '
+        'labelled Counter/Gauge/Summary/Histogram; count_exceptions configured with everything `except <spec>` accepts - no '
+        'argument, a class (incl. BaseException-only ones), the empty tuple, 1-tuples, flat tuples, tuples with repeated and with '
+        'overlapping (class + its subclass) members, tuples nested to depth 3 with empty members (written flat in the reference '
+        'clause, which takes one level only) - the oracle for counting being '
+        'the `except <that spec>:` clause of Python itself around the very same body x scripted clocks (increasing, constant, decreasing, random, exhausted): '
         'exhaustive over single wrapper x outcome class x mode x clock shape, then random trees to depth 5.  '
         'bind: generated parameter lists (positional-only, defaults, *args, keyword-only with/without defaults, **kwargs, '
         'annotations naming local classes, methods, lambdas, reserved names; function names with case/underscores/non-ASCII/300 chars; '
@@ -18,7 +22,8 @@ RULE = ('three case kinds.  body: program trees over {return obj, raise <any of 
         'non-ASCII, percent and quote characters, 5000 chars, in the source or assigned; __name__, __qualname__, __doc__ compared '
         'exactly, __defaults__/__kwdefaults__/__annotations__ by object identity) x call shapes valid and invalid '
         '(missing, too many, unexpected keyword, duplicate, positional-only by keyword, keyword named func): exhaustive '
-        'over small shapes x small calls, then random.  hier: all 22x22 issubclass pairs.  '
+        'over small shapes x small calls, then random.  hier: all 22x22 issubclass pairs.  match: isinstance(exc, spec) of the model '
+        'against a real except clause, all 22 classes x a pool of specs, then random specs.  '
         'non-trivial = at least one wrapper executed with a raising body or a non-increasing clock (body); '
         'a call with at least one keyword or default involved (bind); distinct by the whole case')
 TRUSTED = ['CPython: the with-statement protocol, exec/compile of the generated def, function attribute copying '
@@ -56,6 +61,56 @@ class UserExit(SystemExit):
 CLS = {n: getattr(builtins, n) for n in CLS_NAMES if hasattr(builtins, n)}
 CLS.update(UserError=UserError, UserKeyError=UserKeyError, UserBase=UserBase, UserExit=UserExit)
 CLS_OF = {v: k for k, v in CLS.items()}
+
+
+# ---- exception specs: 'default' (no argument) | 'ClassName' | [spec, ...] (a tuple, possibly empty / nested) ----
+def spec_obj(sp):
+    """the Python object written after `except` / passed to count_exceptions"""
+    if isinstance(sp, str):
+        return CLS[sp]
+    return tuple(spec_obj(x) for x in sp)
+
+
+def spec_names(sp):
+    """class names anywhere in the spec, in order, repetitions kept"""
+    if isinstance(sp, str):
+        return [sp]
+    return [n for x in sp for n in spec_names(x)]
+
+
+def spec_depth(sp):
+    if isinstance(sp, str):
+        return 0
+    return 1 + max([spec_depth(x) for x in sp] or [0])
+
+
+def spec_text(sp):
+    if sp == 'default':
+        return '<no argument>'
+    if isinstance(sp, str):
+        return sp
+    return '(' + ', '.join(spec_text(x) for x in sp) + (',' if len(sp) == 1 else '') + ')'
+
+
+def except_obj(sp):
+    """What is written after `except` to catch `the configured types`: the class; for a tuple, the tuple - an except
+    clause (unlike isinstance) takes tuples one level deep only, so a nested tuple is written out flat: the same
+    classes in the same order, repetitions kept."""
+    if isinstance(sp, str):
+        return CLS[sp]
+    return tuple(CLS[n] for n in spec_names(sp))
+
+
+def except_catches(exc, sp):
+    """does `except <spec>:` catch the exception object?  The except clause of Python itself decides."""
+    o = except_obj(sp)
+    try:
+        try:
+            raise exc
+        except o:
+            return True
+    except BaseException:
+        return False
 
 # metric table: mid -> (kind, labelled)
 COUNTERS = (0, 1)
@@ -291,8 +346,7 @@ class BodyRun:
             c = self.m[w[1]]
             if w[2] == 'default':
                 return c.count_exceptions()
-            cl = [CLS[n] for n in w[2]]
-            return c.count_exceptions(cl[0] if len(cl) == 1 else tuple(cl))
+            return c.count_exceptions(spec_obj(w[2]))
         if w[0] == 'track':
             return self.m[w[1]].track_inprogress()
         return self.m[w[1][1]].time()
@@ -300,19 +354,31 @@ class BodyRun:
     def inner(self, w, b):
         """Run the wrapped body, noting for the direct oracle what escapes from it."""
         if w[0] == 'count':
-            try:
-                r = self.run(b)
-            except BaseException as e:
-                self.count_ctx.append((w[1], w[2], type(e)))
-                raise
-            self.count_ctx.append((w[1], w[2], None))
-            return r
+            return self.counted_ref(w, lambda: self.run(b))
         if w[0] == 'time':
             try:
                 return self.run(b)
             finally:
                 self.clock.advance()        # the moment the Timer context is left
         return self.run(b)
+
+    def counted_ref(self, w, thunk):
+        """Run thunk - what a count_exceptions context encloses - inside a real `except <configured spec>:` clause
+        (`except Exception:` when nothing was configured) and note whether that clause caught what escaped: the
+        reference for `an exception of the configured types escapes`.  The exception goes on unchanged."""
+        ref = Exception if w[2] == 'default' else except_obj(w[2])
+        caught = False
+        try:
+            try:
+                r = thunk()
+            except ref:
+                caught = True
+                raise
+        except BaseException as e:
+            self.count_ctx.append((w[1], w[2], type(e), caught))
+            raise
+        self.count_ctx.append((w[1], w[2], None, False))
+        return r
 
     def around(self, w, thunk):
         """Run thunk (which enters and leaves exactly one wrapper context), noting the clock window of a timer."""
@@ -375,13 +441,7 @@ class BodyRun:
                     return me.inner(w, inner)
                 # the recursive call is itself a wrapped call whose body is "the rest"
                 if w[0] == 'count':
-                    try:
-                        r = wf(n - 1)
-                    except BaseException as e:
-                        me.count_ctx.append((w[1], w[2], type(e)))
-                        raise
-                    me.count_ctx.append((w[1], w[2], None))
-                    return r
+                    return me.counted_ref(w, lambda: wf(n - 1))
                 if w[0] == 'time':
                     try:
                         return me.around(w, lambda: wf(n - 1))
@@ -441,9 +501,8 @@ class BodyRun:
         aux = dict(pub={str(k): v for k, v in pub.items()},
                    windows=[[self.clock.at(a), self.clock.at(b), (b - a) if own else 0] for a, b, own in self.timer_windows],
                    raw_nonneg=[(a == a and a >= 0) for _i, a in raw],
-                   counted=[[c, cfg, (CLS_OF.get(e, e.__name__) if e else None),
-                             bool(e is not None and issubclass(e, tuple(CLS[n] for n in (['Exception'] if cfg == 'default' else cfg))))]
-                            for c, cfg, e in self.count_ctx])
+                   counted=[[c, cfg, (CLS_OF.get(e, e.__name__) if e else None), bool(caught)]
+                            for c, cfg, e, caught in self.count_ctx])
         return dict(cmp=cmp_, aux=aux)
 
 
@@ -580,10 +639,14 @@ def direct_body(case, obs):
         if pc != n or (ps is not None and ps != tot and all(isinstance(d, int) for m, d in c['olog'] if m == i)):
             return 'metric %d exposes count=%r sum=%r after %d observation(s) totalling %r' % (i, pc, ps, n, tot)
     for cm in COUNTERS:
-        exp_n = sum(1 for (cc, _cfg, _e, hit) in aux['counted'] if cc == cm and hit)
+        mine = [x for x in aux['counted'] if x[0] == cm]
+        exp_n = sum(1 for x in mine if x[3])
         if c['cnt'][cm] != exp_n:
-            return ('exception counter %d is %r; %d matching exception(s) escaped its contexts %r'
-                    % (cm, c['cnt'][cm], exp_n, [x for x in aux['counted'] if x[0] == cm]))
+            return ('exception counter %d is %r; out of its count_exceptions contexts %d exception(s) escaped that '
+                    '`except <configured types>` catches: %s'
+                    % (cm, c['cnt'][cm], exp_n,
+                       '; '.join('configured %s, escaped %s -> %s' % (spec_text(cfg), e, 'counts' if hit else 'does not count')
+                                 for _c, cfg, e, hit in mine[:8])))
     return None
 
 
@@ -825,9 +888,15 @@ def sx_target(tg):
     return (Sym(tg[0]), tg[1])
 
 
+def sx_spec(sp):
+    if isinstance(sp, str):
+        return (Sym('cls'), Sym(sp))
+    return (Sym('tup'),) + tuple(sx_spec(x) for x in sp)
+
+
 def sx_wrapper(w):
     if w[0] == 'count':
-        return (Sym('count'), w[1], (Sym('default'),) if w[2] == 'default' else [Sym(n) for n in w[2]])
+        return (Sym('count'), w[1], (Sym('default'),) if w[2] == 'default' else (Sym('given'), sx_spec(w[2])))
     if w[0] == 'track':
         return (Sym('track'), w[1])
     return (Sym('time'), sx_target(w[1]))
@@ -882,6 +951,9 @@ def impl(case):
         return dict(cmp=dict(crash='%s: %s' % (type(e).__name__, e)), aux=dict(tb=traceback.format_exc()[-600:]))
     if k == 'hier':
         return dict(cmp=issubclass(CLS[case['c']], CLS[case['d']]), aux={})
+    if k == 'match':
+        exc = CLS[case['k']]()
+        return dict(cmp=except_catches(exc, case['spec']), aux=dict(isinstance=isinstance(exc, spec_obj(case['spec']))))
     raise ValueError(k)
 
 
@@ -893,6 +965,8 @@ def model(m, case):
         return model_bind(m, case)
     if k == 'hier':
         return m.call('c16_issub', Sym(case['c']), Sym(case['d'])) == 'T'
+    if k == 'match':
+        return m.call('c16_match', Sym(case['k']), sx_spec(case['spec'])) == 'T'
     raise ValueError(k)
 
 
@@ -908,6 +982,9 @@ def direct(case, obs):
         return direct_body(case, obs)
     if k == 'bind':
         return direct_bind(case, obs)
+    if k == 'match' and obs['aux']['isinstance'] != obs['cmp']:
+        return ('harness: isinstance(%s(), %s) is %r but `except` says %r (the classes of the pool must not customise '
+                'instance checks)' % (case['k'], spec_text(case['spec']), obs['aux']['isinstance'], obs['cmp']))
     return None
 
 
@@ -958,6 +1035,25 @@ def classify(case, obs):
             out.append('count:non-matching-escape')
         if any(x[2] is None for x in obs['aux']['counted']):
             out.append('count:normal-return')
+        for n in walk(case['body']):
+            w = n[1] if n[0] == 'call' else n[2] if n[0] == 'rec' else None
+            if w and w[0] == 'count':
+                out.append('config:' + spec_kind(w[2]))
+        for x in obs['aux']['counted']:
+            if x[2] and x[1] != 'default':
+                names = spec_names(x[1])
+                if not names:
+                    out.append('escape-vs-config:nothing-configured')
+                elif x[2] in names:
+                    out.append('escape-vs-config:same-class')
+                elif x[3]:
+                    out.append('escape-vs-config:subclass')
+                elif x[2] in CLS and any(issubclass(CLS[n], CLS[x[2]]) for n in names):
+                    out.append('escape-vs-config:superclass')
+                else:
+                    out.append('escape-vs-config:unrelated')
+                if x[2] in CLS and not issubclass(CLS[x[2]], Exception):
+                    out.append('escape:base-exception-only:' + ('counted' if x[3] else 'not-counted'))
         if any(n[0] in ('rec',) for n in walk(case['body'])):
             out.append('recursion')
         if any(n[0] == 'call' and n[3] == 'with' for n in walk(case['body'])):
@@ -995,6 +1091,25 @@ def classify(case, obs):
     return out
 
 
+def spec_kind(sp):
+    if sp == 'default':
+        return 'default'
+    if isinstance(sp, str):
+        return 'class' if issubclass(CLS[sp], Exception) else 'class-base-only'
+    names = spec_names(sp)
+    if not sp:
+        return 'empty-tuple'
+    if not names:
+        return 'nested-empty'
+    if spec_depth(sp) > 1:
+        return 'nested'
+    if len(set(names)) < len(names):
+        return 'tuple-duplicates'
+    if any(a != b and issubclass(CLS[a], CLS[b]) for a in names for b in names):
+        return 'tuple-overlapping'
+    return 'tuple-%d' % min(len(names), 3)
+
+
 def walk(b):
     yield b
     t = b[0]
@@ -1017,9 +1132,9 @@ def all_wrappers():
     ws = []
     for c in COUNTERS:
         ws.append(['count', c, 'default'])
-        ws.append(['count', c, ['ValueError']])
+        ws.append(['count', c, 'ValueError'])
         ws.append(['count', c, ['KeyError', 'OSError']])
-        ws.append(['count', c, ['BaseException']])
+        ws.append(['count', c, 'BaseException'])
     for g in TRACK_GAUGES:
         ws.append(['track', g])
     for m in OBSERVERS:
@@ -1029,16 +1144,57 @@ def all_wrappers():
     return ws
 
 
+# configurations beyond `a class` / `a flat tuple of distinct unrelated classes`: each x every outcome class x both modes
+SPEC_POOL = [
+    [], [[]], [[], [[]]],                                        # nothing configured
+    ['ValueError'], [['LookupError']],                           # 1-tuples
+    ['ValueError', 'ValueError'],                                # repeated
+    ['LookupError', 'KeyError'], ['UserKeyError', 'Exception'],  # overlapping
+    [['KeyError'], [[], 'OSError', ['ArithmeticError', ['UserExit']]]],   # nested
+    'KeyboardInterrupt', 'GeneratorExit', 'UserBase', ['SystemExit'],     # BaseException-only
+    ['KeyboardInterrupt', 'Exception'], ['UserBase', ['GeneratorExit'], 'StopIteration'],
+    'Exception', ['Exception'], ['BaseException', []],
+]
+
+
+def extra_count_wrappers():
+    return [['count', c, sp] for i, sp in enumerate(SPEC_POOL) for c in ([0, 1] if i < 9 else [i % 2])]
+
+
+def rand_spec(rng, depth=0):
+    """everything `except <spec>` accepts (other than no argument)"""
+    q = rng.random()
+    if depth >= 3:
+        return [] if rng.random() < 0.5 else [rng.choice(CLS_NAMES)]
+    if q < 0.10:
+        return []
+    if depth == 0 and q < 0.38:
+        return rng.choice(CLS_NAMES)
+    if q < 0.50:
+        return rng.sample(CLS_NAMES, rng.randrange(1, 4))
+    if q < 0.62:                                                 # repeated members
+        a = rng.sample(CLS_NAMES, rng.randrange(1, 3))
+        return a + [rng.choice(a)] + (rng.sample(CLS_NAMES, 1) if rng.random() < 0.3 else [])
+    if q < 0.74:                                                 # a class together with a subclass / superclass of it
+        a = rng.choice(CLS_NAMES)
+        rel = [n for n in CLS_NAMES if n != a and (issubclass(CLS[n], CLS[a]) or issubclass(CLS[a], CLS[n]))]
+        out = [a, rng.choice(rel)] if rel else [a]
+        rng.shuffle(out)
+        return out
+    out = []                                                     # nested
+    for _ in range(rng.randrange(1, 4)):
+        out.append(rng.choice(CLS_NAMES) if rng.random() < 0.45 else rand_spec(rng, depth + 1))
+    return out
+
+
 def rand_wrapper(rng, allow_interference=False):
     r = rng.random()
     if r < 0.3:
         c = rng.choice(COUNTERS)
         q = rng.random()
-        if q < 0.4:
+        if q < 0.3:
             return ['count', c, 'default']
-        if q < 0.7:
-            return ['count', c, [rng.choice(CLS_NAMES)]]
-        return ['count', c, rng.sample(CLS_NAMES, rng.randrange(2, 4))]
+        return ['count', c, rand_spec(rng)]
     if r < 0.6:
         return ['track', rng.choice(TRACK_GAUGES)]
     if r < 0.85:
@@ -1152,6 +1308,19 @@ def body_cases(ctx):
                     if mode == 'dec':
                         node.append(0)
                     yield dict(kind='body', body=node, clock=list(clk))
+    # count_exceptions configured with each spec of the pool x every outcome x both modes (function shapes vary)
+    for j, w in enumerate(extra_count_wrappers()):
+        for i, leaf in enumerate(leaves):
+            yield dict(kind='body', body=['call', w, leaf, 'with'], clock=[1, 2])
+            yield dict(kind='body', body=['call', w, leaf, 'dec', (i + j) % len(BODY_SHAPES)], clock=[1, 2])
+    # ... recursing, and nested in / around the other wrappers and another counter configuration
+    for w in extra_count_wrappers()[::2]:
+        for leaf in (['ret', 1], ['raise', 'ValueError', 1], ['raise', 'UserKeyError', 2], ['raise', 'KeyboardInterrupt', 3]):
+            yield dict(kind='body', clock=[3, 1, 4, 1, 5, 9, 2, 6], body=['rec', 2, w, leaf])
+            yield dict(kind='body', clock=[3, 1, 4, 1, 5, 9, 2, 6],
+                       body=['call', ['count', 1 - w[1], 'default'],
+                             ['call', ['track', 2], ['call', w, ['call', ['time', ['obs', 5]], leaf, 'with'], 'dec', 3], 'with'],
+                             'dec', 1])
     # every wrapper pair nested, raising / returning, decreasing clock; recursion of each wrapper
     ws = all_wrappers()
     for w1 in ws[::2]:
@@ -1347,6 +1516,11 @@ def cases(ctx):
     for c in CLS_NAMES:
         for d in CLS_NAMES:
             yield dict(kind='hier', c=c, d=d)
+    for sp in SPEC_POOL:
+        for c in CLS_NAMES:
+            yield dict(kind='match', k=c, spec=sp)
+    for _ in range(ctx.n(600, 20000)):
+        yield dict(kind='match', k=ctx.rng.choice(CLS_NAMES), spec=rand_spec(ctx.rng))
     gens = [body_cases(ctx), bind_cases(ctx)]
     # interleave so that a time budget cuts both streams evenly
     while gens:
@@ -1403,12 +1577,29 @@ def subtrees(b):
     return list(walk(b))
 
 
+def spec_shrinks(sp):
+    """smaller exception specs"""
+    if isinstance(sp, str):
+        return
+    for i, x in enumerate(sp):
+        yield sp[:i] + sp[i + 1:]
+        if not isinstance(x, str):
+            yield sp[:i] + list(x) + sp[i + 1:]
+            for y in spec_shrinks(x):
+                yield sp[:i] + [y] + sp[i + 1:]
+    if len(sp) == 1:
+        yield sp[0]
+
+
 def simplify(b):
     """one-step simplifications of the root"""
     t = b[0]
     if t == 'call':
         for s in simplify(b[2]):
             yield b[:2] + [s] + b[3:]
+        if b[1][0] == 'count':
+            for sp in spec_shrinks(b[1][2]):
+                yield [b[0], ['count', b[1][1], sp]] + b[2:]
         if b[3] == 'dec' and len(b) > 4 and b[4] != 0:
             yield b[:4] + [0]
     elif t == 'rec':
@@ -1437,12 +1628,23 @@ def neighbours(case):
             out.append(dict(case, clock=list(clk) * 3))
         for leaf in (['ret', 1], ['raise', 'KeyError', 1], ['raise', 'KeyboardInterrupt', 1]):
             out.append(dict(case, body=replace_leaves(case['body'], leaf)))
+        for sp in ([], 'default', ['KeyError', 'KeyError'], [['KeyboardInterrupt']]):
+            out.append(dict(case, body=replace_configs(case['body'], sp)))
     elif case['kind'] == 'bind':
         for wk in WKINDS:
             out.append(dict(case, wkind=wk))
         out.append(dict(case, kw=case['kw'] + [['zz', 95]]))
         out.append(dict(case, pos=case['pos'] + [96]))
     return out
+
+
+def replace_configs(b, sp):
+    """every count_exceptions of the tree configured with sp"""
+    if not isinstance(b, list):
+        return b
+    if b and b[0] == 'count' and len(b) == 3:
+        return ['count', b[1], sp]
+    return [replace_configs(x, sp) for x in b]
 
 
 def replace_leaves(b, leaf):
